@@ -90,18 +90,15 @@ def grant_paths(prog, rep, K, rid):
         raise AnalysisError('UNRECOGNISED-IDIOM %s: result of '
                             'self.schedule_task() is not bound to a name'
                             % f.where)
-    # grant region: successors of the truthy edge of the test on `var`
-    starts = []
-    for n in g.nodes:
-        if n.kind == 'test' and isinstance(n.ast, ast.Name) and \
-                n.ast.id == var and call_node.id in \
-                _ancestors(g, n.id):
-            for e in g.succ[n.id]:
-                if e.label == 'T':
-                    starts.append(e.dst)
-    if not starts:
+    # tests on the truth of the placement (possibly several: `if not slots
+    # and ..: raise` followed by `if not slots: return False`)
+    tests = [n for n in g.nodes if n.kind == 'test' and
+             isinstance(n.ast, ast.Name) and n.ast.id == var and
+             call_node.id in _ancestors(g, n.id)]
+    if not tests:
         raise AnalysisError('UNRECOGNISED-IDIOM %s: no truth test on the '
                             'placement %r found' % (f.where, var))
+    starts = Grant(g, call_node, tests)
     # var must not be re-bound after the call
     for n in g.stmt_nodes():
         if n is call_node or n.kind != 'stmt':
@@ -116,6 +113,41 @@ def grant_paths(prog, rep, K, rid):
                                 're-bound after the search: what is marked '
                                 'is not what was found' % var, f.loc(n.ast))
     return f, g, var, starts
+
+
+class Grant:
+    """the granting / not-granting region of _try_allocation: paths from the
+    schedule_task() call on which the placement is truthy (resp. falsy) at
+    every test of it"""
+
+    def __init__(self, g, call_node, tests):
+        self.g = g
+        self.call = call_node
+        self.tests = tests
+        self.falsy = [(t.id, 'F') for t in tests]
+        self.truthy = [(t.id, 'T') for t in tests]
+
+    def granted(self, skip_nodes=()):
+        """nodes reachable from the call while the placement is truthy"""
+        return self.g.reachable(self.call.id, skip_nodes=set(skip_nodes),
+                                skip_edges=self.falsy,
+                                labels={'next', 'T', 'F', 'iter', 'done'})
+
+    def refused(self, skip_nodes=()):
+        return self.g.reachable(self.call.id, skip_nodes=set(skip_nodes),
+                                skip_edges=self.truthy,
+                                labels={'next', 'T', 'F', 'iter', 'done'})
+
+    def must_pass(self, via):
+        """every granting path to the normal exit passes one of `via`"""
+        return self.g.exit.id not in self.granted(skip_nodes=via)
+
+    def only_granted(self, ids):
+        """none of `ids` is reachable while the placement is falsy, nor
+        before the search"""
+        before = self.g.reachable(self.g.entry.id,
+                                  skip_nodes={self.call.id})
+        return not (set(ids) & (self.refused() | before))
 
 
 def _ancestors(g, nid):
@@ -169,8 +201,7 @@ def r01_2(prog, rep, rid='R01.2'):
                     'the same cores')
         for what, via in (('marks the found slots BUSY', marks),
                           ('attaches the found slots to the task', attaches)):
-            okay = bool(via) and all(must_pass(g, s, g.exit.id, via)
-                                     for s in starts)
+            okay = bool(via) and starts.must_pass(via)
             rep.check(okay, rid, f,
                       '%s: every granting path of _try_allocation %s'
                       % (K.name, what),
@@ -1060,6 +1091,22 @@ def r01_10(prog, rep, rid='R01.10'):
         if not roots:
             raise AnalysisError('UNRECOGNISED-IDIOM %s: no node stores'
                                 % f.where)
+        # follow whole-variable aliases (node = found_node) to the variable
+        # that is actually bound by the search
+        def alias_source(nv):
+            for _ in range(4):
+                src = [n.value.id for n in walk(f.node)
+                       if isinstance(n, ast.Assign) and any(
+                           isinstance(t, ast.Name) and t.id == nv
+                           for t in n.targets) and
+                       isinstance(n.value, ast.Name) and
+                       n.value.id in al.rooted[f.name]]
+                if len(src) == 1 and src[0] != nv:
+                    nv = src[0]
+                else:
+                    break
+            return nv
+        roots = {alias_source(nv) for nv in roots}
         for nv in sorted(roots):
             binds = []
             for n in walk(f.node):
@@ -1247,16 +1294,16 @@ def run(prog, rep, tier):
         'ru.lazy_bisect returns (good, bad, failed) as a partition of its '
         'input, `good` being exactly the items for which check() was true',
     ]
-    r01_1(prog, rep)
-    r01_2(prog, rep)
-    r01_3(prog, rep)
-    r01_4(prog, rep)
-    r01_5_6(prog, rep)
-    r01_7(prog, rep)
-    r01_8(prog, rep)
-    r01_9(prog, rep)
-    r01_10(prog, rep)
-    r02_8(prog, rep, rid='R01.11')
+    rep.attempt(r01_1, prog, rep)
+    rep.attempt(r01_2, prog, rep)
+    rep.attempt(r01_3, prog, rep)
+    rep.attempt(r01_4, prog, rep)
+    rep.attempt(r01_5_6, prog, rep)
+    rep.attempt(r01_7, prog, rep)
+    rep.attempt(r01_8, prog, rep)
+    rep.attempt(r01_9, prog, rep)
+    rep.attempt(r01_10, prog, rep)
+    rep.attempt(r02_8, prog, rep, rid='R01.11')
     if tier == 'thorough':
         # sweep: the single-writer rule over every scheduler class that
         # inherits the node-list representation
@@ -1269,7 +1316,7 @@ def run(prog, rep, tier):
                     extra.append(k)
         rep.rule('R01.1s', 'sweep of R01.1 over all subclasses of Continuous / '
                  'ContinuousJsrun', minimum=0)
-        r01_1(prog, rep, rid='R01.1s', extra_classes=extra)
+        rep.attempt(r01_1, prog, rep, rid='R01.1s', extra_classes=extra)
         rep.stat('sweep_classes', len(extra))
 
 # ------------------------------------------------------------------------------
